@@ -263,7 +263,7 @@ func newTrace(sc *Scenario, r *runner) *trace {
 
 func (t *trace) opLine(s *Step) string {
 	switch s.Op {
-	case "store", "rejected":
+	case "store", "finalise", "rejected":
 		return "store " + t.ids.blockArgs(t.sc.U, s.B, parentRoot(s.After.Chain, s.B))
 	case "l1head":
 		return fmt.Sprintf("l1head %d", s.L1.BlockNumber)
